@@ -53,6 +53,46 @@ theorem C03_P4_enters (cfg : NCfg) (hwf : cfg.states.WF = true)
     sameSet (pathsOf r.enters) (expectedEnters cfg live dest) = true :=
   C03_enters_global cfg hwf conf hc hlen dest r h live hnd hl
 
+/-! ### P1: precedence -/
+
+/-- **P1 for one pass of `trigger_nested`** (any scope, any list in `resolve_order` shape): transitions execute only
+from listed states that are not in the `done` set, and the executed sources are pairwise unrelated in the
+ancestor order -/
+theorem C03_P1_pass (cfg : NCfg) (sub : NSub) (sc : Script) (hR : NoRaise sc) (hC : NoCmds sc)
+    (scope : Scope) (x : Ctx) (ev : Nat) (ts : List NTrans) (ps done : List SPath) (s s' : NSt)
+    (hord : ps.Pairwise (fun a b => properPrefix a b = false)) (hnd : ps.Nodup)
+    (h : (tnLoop sub sc cfg scope x ev ts ps done s).state? = some s') :
+    ∃ seg, s'.glog = s.glog ++ seg ∧
+      (execSources ts seg).Pairwise (fun a b => related a b = false) ∧
+      (∀ p ∈ execSources ts seg, p ∈ ps ∧ p ∉ done) :=
+  tnLoop_antichain cfg sub sc hR hC scope x ev ts ps done s s' hord hnd h
+
+/-- **P1 for machines all of whose transitions are declared on the machine**: while one trigger call is processed
+(unqueued machine, admissible configuration with a single root) only transitions of the triggered event execute,
+and their sources are pairwise unrelated — in particular none executes twice, and no ancestor's transition
+executes after (or before) a descendant's -/
+theorem C03_P1 (cfg : NCfg) (sub : NSub) (sc : Script) (hR : NoRaise sc) (hC : NoCmds sc)
+    (hq : cfg.queued = false) (hno : cfg.states.noEvents = true)
+    (qmax ev : Nat) (s s' : NSt) (hlen : s.conf.len = 1) (hcok : ConfOK cfg.states s.conf = true) (hidle : s.queue = [])
+    (h : (napiTrigger sub sc cfg qmax ev s).state? = some s') :
+    ∃ seg, s'.glog = s.glog ++ seg ∧
+      (∀ tr ∈ execRefs seg, tr.scope = [] ∧ tr.ev = ev) ∧
+      (execSources ((alookup ev cfg.events).getD []) seg).Pairwise (fun a b => related a b = false) :=
+  C03_P1_global_only cfg sub sc hR hC hq hno qmax ev s s' hlen hcok hidle h
+
+/-- when no state declares events, `_trigger_event_nested` offers the event exactly once, to the machine's scope -/
+theorem C03_dispatch_global_only (cfg : NCfg) (sub : NSub) (sc : Script) (x : Ctx) (ev : Nat)
+    (hno : cfg.states.noEvents = true) (k : Nat) (v : Forest) (hc : ConfOK cfg.states (.cons k v .nil) = true)
+    (s : NSt) :
+    ten sub sc cfg x ev cfg.root (.cons k v .nil) [] s =
+      (match alookup ev cfg.events with
+       | none => .ok [] s
+       | some ts => (triggerNested sub sc cfg cfg.root x ev ts s).bind fun tmp s2 =>
+           .ok (match tmp with
+             | some b => [(k, b)]
+             | none => []) s2) :=
+  ten_global_only cfg sub sc x ev hno k v hc s
+
 /-! ### P5: an event nobody handles -/
 
 /-- what `_check_event_result` decides for a state value that is a plain list of names: the first active state
